@@ -7,7 +7,9 @@ repository's own regex-syntax crate (tools/regexlang) and analysed as a grammar:
     unreachable), every producible Datatype has a size arm, every producible non-rejected
     Datatype is handled by calculate_parameter_locations without panic
  R2 long forms: the longest length form wins (leftmost-first alternation has no alternative
-    that is a proper prefix of a later one); Long/LongLong/LongDouble are rejected
+    that is a proper prefix of a later one); Long/LongLong/LongDouble are rejected, and every captured
+    specifier that IS a long / long long / long double conversion by the C grammar reaches one of them
+    (through the effective table: a specifier normalised before the lookup is looked up normalised)
  R3 `%%` is an escape: matching "%%<conv>" must not produce a parameter, and the consumer
     must tolerate a match without group 1
  R4 char promotion: Char is sized as Integer
@@ -244,19 +246,42 @@ def run(run):
                 table[q["v"]] = "PANIC" if (panics or produces is None) else produces
             elif q.get("k") in ("Wild", "Bind"):
                 has_panic_default = panics
-    run.floor("Datatype::from table entries", len(table), 40)
+    # the scrutinee may be normalised before the table lookup (e.g. specifier.to_ascii_lowercase()): the EFFECTIVE table maps
+    # a captured specifier s to table[norm(s)]
+    norm_calls = [n["n"] for n in T.walk(ms[0]["e"]) if T.is_call(n, ("to_ascii_lowercase", "to_lowercase", "to_ascii_uppercase", "to_uppercase"))]
+    for n in T.walk(f_from["body"]):
+        if n.get("k") == "LetStmt" and "i" in n and any(y.get("k") in ("Var",) and y.get("id") in {b[0] for b in T.pat_bindings(n["p"])} for y in T.walk(ms[0]["e"])):
+            norm_calls += [c["n"] for c in T.walk(n["i"]) if T.is_call(c, ("to_ascii_lowercase", "to_lowercase", "to_ascii_uppercase", "to_uppercase"))]
+    if any("lower" in c for c in norm_calls):
+        norm = lambda x: x.lower()
+    elif any("upper" in c for c in norm_calls):
+        norm = lambda x: x.upper()
+    else:
+        norm = lambda x: x
+    eff = lambda x: table.get(norm(x))
+    # the effective-table model is exact only if the table lookup is all the function does
+    other_control = [n for n in T.walk(f_from["body"]) if n.get("k") in ("If", "Return") or (n.get("k") == "Match" and n is not ms[0])]
+    model_exact = not other_control
+    # the floor counts the specifiers the table effectively serves, not the number of string literals (arms may be folded)
+    run.floor("specifiers served by Datatype::from", len({x for x in L1set if eff(x) is not None}), 40)
 
     def r1():
         for s in sorted(L1set):
             key = "group1->from|%s" % s
-            if s not in table:
+            if eff(s) is None and not model_exact:
+                run.undecided("R1", key, "Datatype::from does more than one table lookup", psite)
+            elif eff(s) is None:
                 run.check("R1", key, not has_panic_default, "the regex captures `%s` but Datatype::from has no arm for it (falls into the panic arm)" % s, psite)
             else:
-                run.check("R1", key, table[s] != "PANIC", "the regex captures `%s`, whose Datatype::from arm panics" % s, psite)
+                run.check("R1", key, eff(s) != "PANIC", "the regex captures `%s`, whose Datatype::from arm panics" % s, psite)
+        served = {norm(x) for x in L1set}
         for s in sorted(table):
             key = "from->group1|%s" % s
-            run.check("R1", key, s in L1set, "Datatype::from knows specifier `%s` but the regex cannot capture it: a `%%%s` conversion is skipped or mis-parsed (its argument is not counted)" % (s, s), F.loc(f_from["body"]))
-        producible = {table[s] for s in L1set if s in table and table[s] != "PANIC"}
+            if s not in served and not model_exact:
+                run.undecided("R1", key, "Datatype::from does more than one table lookup", F.loc(f_from["body"]))
+                continue
+            run.check("R1", key, s in served, "Datatype::from knows specifier `%s` but no captured specifier reaches it: a `%%%s` conversion is skipped or mis-parsed (its argument is not counted), or the arm is dead because the specifier is normalised before the lookup" % (s, s), F.loc(f_from["body"]))
+        producible = {eff(s) for s in L1set if eff(s) is not None and eff(s) != "PANIC"}
         # size table
         msz = T.find_matches(f_size["body"], adt_suffix="Datatype")
         if not msz:
@@ -300,6 +325,24 @@ def run(run):
         rejected = rejected_set()
         for v in ("Long", "LongLong", "LongDouble"):
             run.check("R2", "rejected|%s" % v, v in rejected, "format strings with %s conversions must be rejected (Err), found rejected set %s" % (v, sorted(rejected)), F.loc(f_parse["body"]))
+        # the long forms of the C conversion grammar must reach a rejected data type: `L` + floating conversion is a long double,
+        # `ll` / `l` + integer conversion a long long / long (`l` + floating conversion is a plain double)
+        FLOATC, INTC = set("aAeEfFgG"), set("diuoxX")
+        for sp in sorted(L1set):
+            cls = None
+            if sp.startswith("L") and sp[1:] and set(sp[1:]) <= FLOATC and len(sp) == 2:
+                cls = "long double"
+            elif sp.startswith("ll") and len(sp) == 3 and sp[2] in INTC:
+                cls = "long long"
+            elif sp.startswith("l") and len(sp) == 2 and sp[1] in INTC:
+                cls = "long"
+            if cls is None:
+                continue
+            dt = eff(sp)
+            if not model_exact and dt not in rejected:
+                run.undecided("R2", "long-form|%s" % sp, "Datatype::from does more than one table lookup; the effective mapping of `%s` is not modelled" % sp, F.loc(f_from["body"]))
+                continue
+            run.check("R2", "long-form|%s" % sp, dt in rejected, "`%%%s` is a %s conversion and must be rejected; Datatype::from maps it to %s%s, which is accepted and sized as such (the variadic argument list is mis-parsed)" % (sp, cls, dt, " (after normalising the specifier to `%s`)" % norm(sp) if norm(sp) != sp else ""), F.loc(f_from["body"]))
         # the rejection must lead to Err: the `if any(..) { return Err }`
         sy = S.Sym(F)
         term = sy.term(f_parse["body"])
